@@ -192,6 +192,47 @@ class CdsModel(Case):
                         yield dict(blocks=bl, strand=strand, frames=list(fr))
 
 
+class WindowedCodons(Case):
+    """scan_chromosome_codon_locations restricted to a chromosome window yields exactly the codons of the reference
+    model that lie completely inside the window (the window may start inside the CDS, after a non-zero start frame)."""
+    props = ("C05",)
+    proved = False
+    name = "bounded: codon scan restricted to a chromosome window = model codons completely inside the window"
+    func = CDS + ".scan_chromosome_codon_locations"
+    scope = "all CDS with 2-3 exons (single-exon windows are decided by the proved single-exon window case, which carries " \
+            "known finding F-C07-1 - the same site is reached through the window arguments, e.g. CDS [2,6) frame ONE, " \
+            "window start 3 returns no codon) of lengths 4-6 (gaps 0-2) on a 26 bp genome, both strands, consistent frame " \
+            "vectors for every start frame 0/1/2; every window start inside the span, window end in {open, span end - 1, " \
+            "span end - 4}; windows holding no complete codon are skipped"
+    call = "list(cds.scan_chromosome_codon_locations(chromosome_start=ws, chromosome_end=we))"
+    ensures = {
+        "codons-inside-the-window": lambda i, r: sorted(sorted(loc_positions(x)) for x in r) == i.expected,
+    }
+
+    def inputs(self, S):
+        blocks = [tuple(b) for b in S.const("blocks")]
+        strand, fr, ws, we = S.const("strand"), S.const("frames"), S.const("ws"), S.const("we")
+        hi = blocks[-1][1] if we is None else we
+        codons = model_codons(blocks, strand, fr)
+        expected = sorted(sorted(c) for c in codons if min(c) >= ws and max(c) < hi)
+        S.assume(len(expected) >= 1 and hi - ws >= 3)
+        from inscripta.biocantor.io.parser import seq_to_parent
+        cds = mk_cds(S, blocks, strand, fr, seq_to_parent(GENOME))
+        return NS(cds=cds, ws=ws, we=we, expected=expected)
+
+    def domain(self, tier):
+        lens = (4, 5) if tier == "quick" else (4, 5, 6)
+        for bl in exon_layouts(len(GENOME), 3, lens=lens, gaps=(0, 2) if tier == "quick" else (0, 1, 2), first=(2,)):
+            if len(bl) < 2:
+                continue
+            for strand in ("PLUS", "MINUS"):
+                for f0 in (0, 1, 2):
+                    fr = consistent_frames(bl, strand, f0)
+                    for ws in range(bl[0][0], bl[-1][1] - 2):
+                        for we in (None, bl[-1][1] - 1, bl[-1][1] - 4):
+                            yield dict(blocks=bl, strand=strand, frames=fr, ws=ws, we=we)
+
+
 class ChunkTwin(Case):
     """the same CDS built on the whole chromosome and on a sequence chunk."""
     props = ("C07", "C05")
@@ -341,4 +382,4 @@ class GffChunkRows(Case):
                             yield dict(blocks=bl, strand=strand, f0=f0, cs=cs, ce=ce)
 
 
-CASES = [CdsModel(), ChunkTwin(), GffChunkRows()]
+CASES = [CdsModel(), WindowedCodons(), ChunkTwin(), GffChunkRows()]
